@@ -17,6 +17,15 @@ RULE = ("band.hist cases (initial compact storage with every padding slot set to
         "(tiny sub-diagonals 1e-20, scaled rows, NaN/inf/1e300 padding; det/solve only where cond_inf <= 1e8; quick: n<=5 + sample), (d) padding "
         "written through new / fill_band / index_mut (in-band, column >= n) / += constant; (e) mismatched sizes, out-of-band and out-of-range "
         "arguments (must be rejected); (f) seeded random histories incl. resize; (g) bandwidths >= n (tie only). "
+        "Structured families (every triple up to n=4 and a seeded rotation of 14 larger ones; thorough: n<=6 + 30): (h) structured matrices over Rat -- constant "
+        "positive bands (the unit tests' class), one special value per band, equal magnitudes with random signs (ties in every pivot search), entries "
+        "from {0,1,-1,2,1/2,-2,-1/2}, s*I, diagonal matrices (zeros on the diagonal allowed), the zero matrix, sign patterns flipped entry by entry -- x structured vectors and right-hand sides (zero, ones, "
+        "alternating, a unit vector, first/last component only, special draws); (i) the same over f64 (-0.0 included) and Complex<f64> (entries on the four "
+        "axes +-k, +-ki, unit modulus 0.6+0.8i, purely imaginary pivot candidates, equal moduli with different arguments); (j) floats at extreme power-of-two "
+        "scales (f64 2^+-(100..800), Complex 2^+-(100..200); most cases need a row exchange and sit in the last quarter of the range; right-hand side moves with the matrix; mulv and solve judged, "
+        "no det); (k) operators with special scalars (0, -0.0, 1, -1, 2, 1/2, +-i, 0.6+0.8i; B *= 0 included) and both operands the same object (&B + &B, &B - &B, "
+        "owned forms compared); (l) every ordered pair of the 13 mutating operations (set, fill, fill_band, new, resize, +=/-= B borrowed and owned, *=, /=, += c, -= c) "
+        "with det/solve/mulv before, the state after each, and getall/size/det/solve/mulv/neg after (quick: a seeded third of the 169 pairs; thorough: all). "
         "distinct = distinct executor line; non-trivial = n >= 2")
 TRUSTED = ["Coq 8.16.1 kernel + vm_compute", "Rust executor /verif/harness (Rat = i128 rationals; banded literals built through new/index_mut/resize)",
            "python driver: generators, dense-twin reference in Fraction / float, stream comparators",
@@ -37,7 +46,9 @@ MANIFEST = dict(
           "that differ in padding only), never leaves its buffers (it answers or refuses at a zero pivot of its own factorisation), and with the magnitude "
           "pivot rule answers on every nonsingular band (trivial kernel); the pre-repair signed rule is refuted by the committed witness. The model is run "
           "against the implementation on every (n,m1,m2) up to n=6 (10 thorough) x sign patterns x loud padding (Rat vs Qc exact, f64/Complex vs primitive "
-          "floats, bit-compared), and a dense-twin reference in Fraction judges entries, arithmetic, product, determinant and the residual of solve."),
+          "floats, bit-compared), and a dense-twin reference in Fraction judges entries, arithmetic, product, determinant and the residual of solve. "
+          "The search also draws structured classes: special values (0, -0.0, +-1, 2, 1/2, complex axes and unit modulus), constant / equal-magnitude / "
+          "identity / zero matrices, structured vectors, extreme power-of-two scales, special scalars, same-object operands and every ordered pair of mutating operations."),
     note=("band_det is proved equal to the determinant of the dense twin over every mathcomp fieldType and at Qc; the backward error of the LU factors and of solve is proved in the standard rounding model (growth factor not bounded), float accuracy itself is searched (backward error 1e-11 on "
           "systems with cond <= 1e8). Hypothesis m1 <= n in the LU theorems (the property has m1 < n; wider bands are tied to the model only)."),
     technique="Coq proof over an abstract ring/field + model/implementation differential execution (vm_compute vs Rust executor) + dense-twin oracle",
@@ -163,6 +174,121 @@ def arith_ops(g, elt, n, m1, m2, short=False):
     for m in mut: ops += [m, ("dump",)]
     return ops + [("mulv", svec(g, elt, n)), ("getall",)] + ([("det",)] if elt == 'rat' else [])
 
+# ------------------------------------------------------------------ special value classes (structured families)
+# entries, scalars and vector components drawn from the classes a fast path, a sign test or a zero test can key on
+SPECIAL = {
+    'rat': [Fraction(0), Fraction(1), Fraction(-1), Fraction(2), Fraction(1, 2), Fraction(-2), Fraction(-1, 2)],
+    'f64': [0.0, -0.0, 1.0, -1.0, 2.0, 0.5, -2.0, -0.5],
+    'cplx': [0j, complex(-0.0, 0.0), complex(0.0, -0.0), 1 + 0j, -1 + 0j, 1j, -1j, 2 + 0j, 0.5j, -2j, complex(-0.5, 0.0),
+             complex(0.6, 0.8), complex(-0.6, 0.8), complex(0.8, -0.6)],
+}
+UNITS = [1, -1, 1j, -1j]
+SHAPES = ["const-pos", "const", "pm", "unit", "identity", "diagonal", "zero", "axes"]
+
+def sp(rng, elt, nz=False):
+    while True:
+        x = rng.choice(SPECIAL[elt])
+        if x != 0 or not nz: return x
+
+def one_of(elt):
+    return Fraction(1) if elt == 'rat' else (1.0 if elt == 'f64' else 1 + 0j)
+
+def special_band(rng, shape, n, m1, m2, elt, pads=None):
+    """(n, m1, m2, vals) of a structured class, every padding slot loud:
+       const-pos  constant positive bands (the class every unit test of the crate uses)
+       const      constant bands, one special value per band
+       pm         every in-band entry has the same magnitude; signs (complex: one of the four axes) at random -- ties in every pivot search
+       unit       every in-band entry drawn from SPECIAL (0, -0.0, 1, -1, 2, 1/2, ...; complex: axes and unit modulus)
+       identity   s * I: zero off-diagonal bands
+       diagonal   zero off-diagonal bands under a diagonal of special values (zeros at any position)
+       zero       the zero matrix (singular; -0.0 among the zeros for floats)
+       axes       a sign pattern of the linear-algebra families rotated entry by entry onto an axis (complex) / sign-flipped (real):
+                  purely imaginary sub-diagonals under a zero diagonal, equal moduli with different arguments"""
+    mm = m1 + m2 + 1
+    pads = pads or (PAD_RAT if elt == 'rat' else PAD_F64)
+    cv = (lambda x: Fraction(x)) if elt == 'rat' else ((lambda x: float(x)) if elt == 'f64' else (lambda x: complex(x)))
+    if shape == "const-pos": per = [cv(rng.range(1, 4)) for _ in range(mm)]
+    if shape == "const": per = [sp(rng, elt) for _ in range(mm)]
+    mag = cv(rng.choice([1, 2, 3]))
+    base = None
+    if shape == "axes":
+        base = gen_band(rng, rng.choice(["zero-diag", "neg-diag", "mixed", "tiny-sub"]), n, m1, m2, 'rat')[3]
+    z = cv(0)
+    vals = [None] * (n * mm)
+    for i in range(n):
+        for sl in range(mm):
+            j = i + sl - m1
+            if not (0 <= j < n):
+                p_ = rng.choice(pads); vals[i * mm + sl] = p_ if elt != 'cplx' else complex(p_); continue
+            if shape in ("const-pos", "const"): x = per[sl]
+            elif shape == "pm": x = mag * (rng.choice(UNITS) if elt == 'cplx' else rng.choice([1, -1]))
+            elif shape == "unit": x = sp(rng, elt)
+            elif shape == "identity": x = z if j != i else None
+            elif shape == "diagonal": x = z if j != i else sp(rng, elt)
+            elif shape == "zero": x = z if (elt == 'rat' or rng.chance(2, 3)) else -z
+            elif shape == "axes":
+                b = base[i * mm + sl]
+                x = cv(b) * (rng.choice(UNITS) if elt == 'cplx' else rng.choice([1, -1]))
+            vals[i * mm + sl] = x
+    if shape == "identity":
+        f = sp(rng, elt)
+        vals = [(f if v is None else v) for v in vals]
+    return (n, m1, m2, vals)
+
+def special_vec(rng, elt, n, k):
+    """structured vectors: 0 zero, 1 all ones, 2 alternating signs, 3 a unit vector, 4 first and last component only, 5 special draws"""
+    one = one_of(elt); z = one - one
+    if k == 0: return [z] * n
+    if k == 1: return [one] * n
+    if k == 2: return [one if i % 2 == 0 else -one for i in range(n)]
+    if k == 3:
+        j = rng.below(n); return [one if i == j else z for i in range(n)]
+    if k == 4: return [(sp(rng, elt, nz=True) if i in (0, n - 1) else z) for i in range(n)]
+    return [sp(rng, elt) for _ in range(n)]
+
+def special_lin(g, elt, B, full):
+    """views of one structured matrix with structured vectors; det / solve of floats only where the dense twin is well conditioned"""
+    n = B[0]
+    ks = list(range(6)) if full else g.shuffle(range(6))[:3]
+    ops = [("getall",)] if n <= 4 else []
+    ops += [("mulv", special_vec(g, elt, n, k)) for k in ks]
+    if elt == 'rat' or cond_inf(dense_of(B, zero_of(elt))) <= COND_LIMIT:
+        ops += [("det",)] + [("solve", special_vec(g, elt, n, k)) for k in (ks if full else ks[:2])]
+    return ops
+
+def scale_band(B, elt, sc):
+    """multiply the in-band entries by a power of two (exact); padding stays loud"""
+    n, m1, m2, vals = B
+    mm = m1 + m2 + 1
+    out = list(vals)
+    for i in range(n):
+        for sl in range(mm):
+            if 0 <= i + sl - m1 < n: out[i * mm + sl] = vals[i * mm + sl] * sc
+    return (n, m1, m2, out)
+
+MUTS = ["set", "fill", "fill_band", "new", "resize", "add_assign", "sub_assign", "add_assign_own", "sub_assign_own",
+        "mul_assign_s", "div_assign_s", "add_assign_s", "sub_assign_s"]
+
+def gen_mut(g, elt, dims, m):
+    """one valid mutating operation of class m on a matrix of sizes dims; returns (op, new dims)"""
+    n, m1, m2 = dims
+    sv = lambda nz=False: (sp(g, elt, nz) if g.chance(1, 2) else (nz_(g, elt) if nz else sval(g, elt)))
+    C = lambda: to_elt(g, gen_band(g, "mixed", n, m1, m2, elt if elt == 'rat' else 'f64', want_nonsingular=False), elt)
+    if m == "set":
+        i = g.below(n); j = g.range(max(0, i - m1), min(n - 1, i + m2)); return ("set", i, j, sv()), dims
+    if m == "fill": return ("fill", sv()), dims
+    if m == "fill_band": return ("fill_band", g.range(-m1, m2), sv()), dims
+    if m in ("new", "resize"):
+        nn = g.range(1, 4); a1 = g.below(nn); a2 = g.below(nn)
+        return (("new", nn, a1, a2, sv()) if m == "new" else ("resize", nn, a1, a2)), (nn, a1, a2)
+    if m in ("add_assign", "sub_assign", "add_assign_own", "sub_assign_own"): return (m, C()), dims
+    if m in ("mul_assign_s", "add_assign_s", "sub_assign_s"): return (m, sv()), dims
+    if m == "div_assign_s": return (m, sv(True)), dims
+    raise ValueError(m)
+
+def nz_(g, elt):
+    return nz(g, elt)
+
 def generate(rng, tier):
     cases = []
     thorough = tier == "thorough"
@@ -279,6 +405,68 @@ def generate(rng, tier):
     for (n, m1, m2) in [(1, 1, 0), (1, 0, 1), (1, 1, 1), (2, 2, 0), (2, 0, 2), (2, 3, 1), (3, 3, 3), (3, 1, 4), (2, 2, 2)]:
         B = gen_band(g, "mixed", n, m1, m2, want_nonsingular=False)
         cases.append(mk('rat', B, [("getall",), ("mulv", svec(g, 'rat', n)), ("det",), ("solve", svec(g, 'rat', n))], "wide-bands-tie-only", tie_only=True))
+    # ---- structured families.  Quick: every triple up to n = 4 and a seeded rotation of the larger ones (every triple comes round with the
+    # seed); thorough: every triple up to n = 6 and a sample of the larger ones
+    g = rng.fork("special")
+    small = triples(1, 4)
+    TS = (triples(1, 6) + g.shuffle(triples(7, 10))[:30]) if thorough else (small + g.shuffle(triples(5, 10))[:14])
+    # (h) structured matrices x structured vectors / right-hand sides, exact tier
+    for (n, m1, m2) in TS:
+        for shp in (SHAPES if thorough and n <= 4 else g.shuffle(SHAPES)[:2]):
+            B = special_band(g, shp, n, m1, m2, 'rat')
+            cases.append(mk('rat', B, special_lin(g, 'rat', B, thorough and n <= 4), "rat-special-" + shp))
+    # (i) the same over f64 (with -0.0) and Complex<f64> (axes, unit modulus, purely imaginary pivots candidates, equal moduli)
+    for (n, m1, m2) in TS:
+        for elt in ('f64', 'cplx'):
+            for shp in (SHAPES if thorough and n <= 3 else g.shuffle(SHAPES)[:(2 if elt == 'cplx' else 1)]):
+                B = special_band(g, shp, n, m1, m2, elt, pads=(PAD_WILD if g.chance(1, 5) else PAD_F64))
+                cases.append(mk(elt, B, special_lin(g, elt, B, False), "%s-special-%s" % (elt, shp)))
+    # (j) floats at extreme power-of-two scales (in-band entries * 2^+-(100..800) for f64, 2^+-(100..200) for Complex -- the modulus of a
+    # Complex squares its parts --; the right-hand side moves with the matrix): products and solutions stay inside the binary64 range;
+    # conditioning and the backward-error bound are scale invariant
+    for kk, (n, m1, m2) in enumerate(g.shuffle(TS)):
+        for elt in ('f64', 'cplx'):
+            if elt == 'cplx' and not thorough and kk >= 20: continue
+            # most cases need a row exchange at once (zero diagonal over a non-zero sub-diagonal) and sit in the last quarter of the range
+            pat = "zero-diag" if (g.chance(3, 4) and m1 >= 1 and m2 >= 1) else g.choice(["neg-diag", "tiny-sub", "mixed", "all-neg"])
+            B0 = gen_band(g, pat, n, m1, m2, 'f64')
+            if pat == "tiny-sub":          # 1e-20 sub-diagonals are for the unscaled families; here 2^-10
+                B0 = gen_band(g, pat, n, m1, m2, 'rat'); B0 = (n, m1, m2, [float(x) if isinstance(x, Fraction) and abs(x) < 70 else g.choice(PAD_F64) for x in B0[3]])
+            B = to_elt(g, B0, elt)
+            top = 800 if elt == 'f64' else 200
+            e = (g.range(100, top) if g.chance(1, 4) else g.range(top - top // 4, top)) * g.choice([1, -1])
+            B = scale_band(B, elt, 2.0 ** e)
+            ev, eb = g.range(-60, 60), e + g.range(-60, 60)          # the right-hand side moves with the matrix: solutions of order 2^+-60
+            ops = [("mulv", [x * 2.0 ** ev for x in svec(g, elt, n)])]
+            if cond_inf(dense_of(B, zero_of(elt))) <= COND_LIMIT:
+                ops += [("solve", [x * 2.0 ** eb for x in svec(g, elt, n)]), ("solve", [x * 2.0 ** eb for x in special_vec(g, elt, n, g.below(6))])]
+            cases.append(mk(elt, B, ops, "%s-scaled-extreme" % elt))
+    # (k) operators with special scalars (0, -0.0, 1, -1, 2, 1/2; complex axes and unit modulus), both operands the same object
+    for (n, m1, m2) in (TS if thorough else g.shuffle(TS)[:24]):
+        elt = g.choice(['rat', 'rat', 'f64', 'cplx'])
+        B = to_elt(g, gen_band(g, "mixed", n, m1, m2, 'rat' if elt == 'rat' else 'f64', want_nonsingular=False), elt)
+        ops = [("add_self",), ("sub_self",)]
+        for s_ in g.shuffle(SPECIAL[elt])[:4]:
+            ops.append(("scale", s_))
+            if s_ != 0: ops.append(("div", s_))
+        for s_ in g.shuffle(SPECIAL[elt])[:5]:
+            m = g.choice(["mul_assign_s", "add_assign_s", "sub_assign_s", "div_assign_s"])
+            if m == "div_assign_s" and s_ == 0: m = "mul_assign_s"
+            ops += [(m, s_), ("dump",)]
+        ops += [("mulv", special_vec(g, elt, n, g.below(6))), ("getall",)] + ([("det",)] if elt == 'rat' else [])
+        cases.append(mk(elt, B, ops, "special-scalars-" + elt))
+    # (l) histories: every ordered pair of mutating operations; every view before, between (state) and after
+    g = rng.fork("pairs")
+    pairs = [(a, b) for a in MUTS for b in MUTS]
+    for k, (ma, mb) in enumerate(g.shuffle(pairs) if thorough else g.shuffle(pairs)[:len(pairs) // 3]):
+        elt = ['rat', 'rat', 'f64', 'rat', 'cplx', 'rat'][k % 6]
+        n = g.range(1, 4); m1 = g.below(n); m2 = g.below(n)
+        B = to_elt(g, gen_band(g, g.choice(PATTERNS[:6]), n, m1, m2, 'rat' if elt == 'rat' else 'f64'), elt)
+        lin = lambda nn: ([("det",), ("solve", svec(g, elt, nn))] if elt == 'rat' else []) + [("mulv", svec(g, elt, nn))]
+        ops = lin(n)
+        o, dims = gen_mut(g, elt, (n, m1, m2), ma); ops += [o, ("dump",)]
+        o, dims = gen_mut(g, elt, dims, mb); ops += [o, ("dump",), ("getall",), ("size",)] + lin(dims[0]) + [("neg",)]
+        cases.append(mk(elt, B, ops, "op-pairs-" + elt, nontrivial=True))
     # the model side is evaluated in consecutive shards: interleave the families so that the shards cost about the same
     return rng.fork("order").shuffle(cases)
 
